@@ -1,10 +1,11 @@
 """Union of all case generators / spec predicates, keyed by modelled function name."""
-import mpfcases, cxcases, api, ctxcases
+import mpfcases, cxcases, api, ctxcases, strcases
 
 
 def make(rng, fn, n):
     if fn == "API_OPS": return api.api_cases(rng, n)
     if fn == "API_F": return api.fcases(rng, n)
+    if fn in strcases.GENS: return strcases.make_cases(rng, fn, n)
     if fn in CTX: return ctxcases.make_cases(rng, fn, n)
     if fn in cxcases.GENS: return cxcases.make_cases(rng, fn, n)
     return mpfcases.make_cases(rng, fn, n)
@@ -16,6 +17,8 @@ CTX = {"mpf_mag", "mpc_mag", "int_mag", "mpq_mag", "nint_distance_mpf", "nint_di
 
 
 def spec(case, out):
+    if case.exact is not None and case.exact[0] == "str":
+        return strcases.spec_check(case, out)
     if case.exact is not None and case.exact[0] in ("mag", "mag2", "nintd", "bool", "list", "v0", "tuple", "tofloat") or case.fn == "from_float_parts":
         return ctxcases.spec_check(case, out)
     if case.fn in cxcases.GENS and case.exact is not None and case.exact[0] in (
